@@ -63,8 +63,11 @@ where
     let req: HtlcAcceptedRequest = match serde_json::from_value(v) {
         Ok(req) => req,
         Err(e) => {
+            // Returning an error here would make the hook reply a json-rpc
+            // error rather than a hook result. If the request cannot be
+            // understood this plugin has nothing to do with the htlc.
             error!("failed to deserialize htlc accepted request: {:?}", e);
-            return Err(e.into());
+            return Ok(serde_json::json!({"result": "continue"}));
         }
     };
     let resp = plugin.state().htlc_manager.handle_htlc(&req).await;
